@@ -127,6 +127,38 @@ func matchTemplate(ld loopDesc, t modeTemplate) bool {
 	for i := range t.phis {
 		t.phis[i] = normC11(t.phis[i])
 	}
+	// events outside a two-way test stand for the same event in both arms
+	{
+		guards := map[string]bool{}
+		for _, e := range ld.Events {
+			if strings.HasPrefix(e, "[") {
+				if j := strings.Index(e, "] "); j > 0 && !strings.Contains(e[1:j], "&") {
+					guards[strings.TrimPrefix(e[1:j], "!")] = true
+				}
+			}
+		}
+		tGuarded := len(t.events) > 0
+		for _, e := range t.events {
+			if !strings.HasPrefix(e, "[") {
+				tGuarded = false
+			}
+		}
+		if len(guards) == 1 && tGuarded {
+			var g string
+			for k := range guards {
+				g = k
+			}
+			var out []string
+			for _, e := range ld.Events {
+				if strings.HasPrefix(e, "[") {
+					out = append(out, e)
+				} else {
+					out = append(out, "["+g+"] "+e, "[!"+g+"] "+e)
+				}
+			}
+			ld.Events = out
+		}
+	}
 	// the block cipher writing straight into its slot of the output instead of into a scratch block that is then
 	// copied there: the scratch role K IS the output slot
 	mentionsOut := false
